@@ -87,12 +87,24 @@ class Val:
                 fdef = self.fdef.join(o.fdef) if (self.fdef is not None and o.fdef is not None) else None
                 if fdef is None and (self.fdef is not None or o.fdef is not None):
                     fields = None
-        return Val(self.own | o.own, self.reach | o.reach, k, self.typ if self.typ is o.typ else None, fields, fdef)
+        return Val(self.own | o.own, self.reach | o.reach, k, self.typ if self.typ is o.typ else _lca(self.typ, o.typ), fields, fdef)
 
     def with_field(self, attr, v):
         f = dict(self.fields or {})
         f[attr] = v
         return Val(self.own, self.reach | v.reach, self.kind, self.typ, f, self.fdef)
+
+
+_REPO = [None]
+
+
+def _lca(a, b):
+    """least common ancestor class of two classes (None if unknown / unrelated)"""
+    repo = _REPO[0]
+    if a is None or b is None or repo is None:
+        return None
+    mb = repo.mro(b)
+    return next((c for c in repo.mro(a) if c in mb), None)
 
 
 def _kjoin(a, b):
@@ -174,6 +186,7 @@ def is_mutable_default(expr: ast.AST) -> bool:
 class Effects:
     def __init__(self, repo, scope_prefixes=None):
         self.repo = repo
+        _REPO[0] = repo
         self.funcs: List[FuncInfo] = list(repo.all_functions())
         self.summ: Dict[str, Summary] = {f.qualname: Summary() for f in self.funcs}
         self.by_name: Dict[str, List[FuncInfo]] = {}
@@ -908,6 +921,10 @@ class FuncWalk:
             d = self.dotted(fn, env) or fn.id
             return self.external(d, None, args, kw, n, env)
         if isinstance(fn, ast.Name):
+            held = env.get(fn.id)
+            if held is not None and held.kind == "cls" and held.typ is not None:
+                # a local name holding a class (`register_class = A if flag else B`): an instance of (a subclass of) their common base
+                return self.construct(held.typ, args, kw, n, env)
             self.eff.unresolved_calls += 1
             return Val(E, frozenset().union(*[a.reach for a in args]) if args else E, "?")
         if isinstance(fn, ast.Attribute):
